@@ -35,6 +35,7 @@ import (
 	"github.com/zmap/zcrypto/x509/revocation/mozilla"
 	"verifmc/internal/ev"
 	"verifmc/internal/fx"
+	"verifmc/internal/nohb"
 )
 
 // ---------------------------------------------------------------- alphabets and fixtures
@@ -1086,6 +1087,10 @@ func evalModel(x *ctxEval, m *Model) ([]verdict, []byte) {
 }
 
 func main() {
+	if nohb.IsWorker() {
+		nohb.WorkerMain(reentrantOps(), reentrantRepoDir())
+		return
+	}
 	ev.Main("C15", "model_checking", func(c *ev.Ctx) {
 		f := buildFixtures()
 		subsets := serialLists(false)
@@ -1248,6 +1253,7 @@ func main() {
 				}
 			}
 		}
+		reentrantPhase(c)
 	})
 }
 
